@@ -256,7 +256,7 @@ def check_c19(case, stats):
 
 
 CHECKS = {'check_c19': check_c19}
-_B = {'quick': 25, 'thorough': 400}
+_B = {'quick': 25, 'thorough': 600}
 
 
 def shards(tier):
